@@ -991,6 +991,20 @@ theorem canon_eq_of_ntoks (a b : Node) (ha : nfNode a = true) (hb : nfNode b = t
   (ntoks_inj_node a b [] [] ha hb hta htb (by rw [List.append_nil, List.append_nil, h])).1
 
 
+mutual
+/-- `canon` does not change the view. -/
+theorem ntoks_canon : ∀ (n : Node), ntoks (canon n) = ntoks n
+  | .elt name attrs kids => by
+    rw [canon_elt, ntoks_elt, ntoks_elt, ntoksL_canonL kids, List.map_map]
+    rfl
+  | .text s => by rw [canon_text]
+  | .cdata kids => by rw [canon]
+  | .tree l cs r => by rw [canon]
+theorem ntoksL_canonL : ∀ (ks : List Node), ntoksL (canonL ks) = ntoksL ks
+  | [] => by rw [canonL_nil]
+  | k :: r => by rw [canonL_cons, ntoksL_cons, ntoksL_cons, ntoks_canon k, ntoksL_canonL r]
+end
+
 /-! ### The normalised tree is its own canonical form -/
 
 theorem addKid_all {P : Node → Prop} (acc : List Node) (n : Node) (ht : ∀ s, P (.text s))
@@ -1128,6 +1142,298 @@ theorem isText_nodeOfElem (c : Ctx) (pg : Pages) (e : Elem) : isText (nodeOfElem
 theorem isText_of_isElt (n : Node) (h : isElt n = true) : isText n = false := by
   cases n <;> first | rfl | cases h
 
+
+/-! ### Idempotence in every language, for trees without adjacent text nodes
+
+  In the SyncML languages `normText` rewrites the DevInf / DM-tree media types, and a text that
+  only becomes such a type after the reader has merged two text nodes is rewritten by the SECOND
+  pass (`norm_not_idempotent_syncml`). A tree without adjacent text siblings — what both tree
+  builders deliver — never has anything merged, and the normalisation is idempotent there in
+  every language. -/
+
+def mimeA : Bytes := b!"application/vnd.syncml-devinf+xml"
+def mimeA' : Bytes := b!"application/vnd.syncml-devinf+wbxml"
+def mimeB : Bytes := b!"application/vnd.syncml.dmtnds+xml"
+def mimeB' : Bytes := b!"application/vnd.syncml.dmtnds+wbxml"
+
+theorem syncmlTypeText_cases (id : Nat) (s : Bytes) :
+    syncmlTypeText id s = s ∨ syncmlTypeText id s = mimeA' ∨ syncmlTypeText id s = mimeB' := by
+  unfold syncmlTypeText
+  split
+  · simp only
+    split
+    · exact Or.inr (Or.inr rfl)
+    · split
+      · exact Or.inr (Or.inl rfl)
+      · exact Or.inl rfl
+  · exact Or.inl rfl
+
+theorem syncmlTypeText_idem (id : Nat) (s : Bytes) : syncmlTypeText id (syncmlTypeText id s) = syncmlTypeText id s := by
+  have hA' : syncmlTypeText id mimeA' = mimeA' := by
+    unfold syncmlTypeText
+    have h1 : caseEq mimeA' b!"application/vnd.syncml-devinf+xml" = false := by decide
+    have h2 : caseEq mimeA' b!"application/vnd.syncml.dmtnds+xml" = false := by decide
+    split
+    · simp only [h1, h2, Bool.false_eq_true, ↓reduceIte]
+    · rfl
+  have hB' : syncmlTypeText id mimeB' = mimeB' := by
+    unfold syncmlTypeText
+    have h1 : caseEq mimeB' b!"application/vnd.syncml-devinf+xml" = false := by decide
+    have h2 : caseEq mimeB' b!"application/vnd.syncml.dmtnds+xml" = false := by decide
+    split
+    · simp only [h1, h2, Bool.false_eq_true, ↓reduceIte]
+    · rfl
+  cases hs : isSyncml id with
+  | false => rw [syncmlTypeText_of_not _ _ hs, syncmlTypeText_of_not _ _ hs]
+  | true =>
+    by_cases hb : caseEq s b!"application/vnd.syncml.dmtnds+xml" = true
+    · have : syncmlTypeText id s = mimeB' := by unfold syncmlTypeText; simp only [hs, hb, ↓reduceIte]; rfl
+      rw [this, hB']
+    · by_cases ha : caseEq s b!"application/vnd.syncml-devinf+xml" = true
+      · have : syncmlTypeText id s = mimeA' := by
+          unfold syncmlTypeText; simp only [hs, hb, ha, ↓reduceIte, Bool.false_eq_true]; rfl
+        rw [this, hA']
+      · have : syncmlTypeText id s = s := by
+          unfold syncmlTypeText; simp only [hs, hb, ha, ↓reduceIte, Bool.false_eq_true]
+        rw [this, this]
+
+theorem solid_of_checks (c : WCfg) (t : Bytes) (h1 : t.isEmpty = false) (h2 : nulFree t = true)
+    (h3 : stripBlanks t = t) (h4 : t.all isSpaceC = false) : Solid c t :=
+  ⟨(by intro h; rw [h] at h1; cases h1), h2, fun _ => h3 ▸ trim_strip t, fun _ => h4⟩
+
+theorem syncmlTypeText_solid (c : WCfg) (t : Bytes) (h : Solid c t) : Solid c (syncmlTypeText c.lang.id t) := by
+  rcases syncmlTypeText_cases c.lang.id t with e | e | e
+  · rw [e]; exact h
+  · rw [e]; exact solid_of_checks c mimeA' (by decide) (by decide) (by decide) (by decide)
+  · rw [e]; exact solid_of_checks c mimeB' (by decide) (by decide) (by decide) (by decide)
+
+/-- Solid, and a fixed point of the media-type rewriting. -/
+structure SolidS (c : WCfg) (t : Bytes) : Prop where
+  sol : Solid c t
+  syn : syncmlTypeText c.lang.id t = t
+
+theorem normText_of_solidS (c : WCfg) (t : Bytes) (h : SolidS c t) : normText c t = t := by
+  unfold normText
+  have h1 : (c.ignoreEmpty && t.all isSpaceC) = false := by
+    cases hi : c.ignoreEmpty with
+    | false => rfl
+    | true => rw [h.sol.nb hi]; rfl
+  rw [h1]
+  simp only [Bool.false_eq_true, ↓reduceIte]
+  have h2 : (if c.removeBlanks = true then stripBlanks t else t) = t := by
+    split
+    · rename_i hr; exact strip_of_trim t (h.sol.trim hr)
+    · rfl
+  rw [h2, cstrOf_of_nulFree t h.sol.nf, h.syn]
+
+theorem syncmlTypeText_nil (id : Nat) : syncmlTypeText id [] = [] := by
+  unfold syncmlTypeText
+  split
+  · have h1 : caseEq [] b!"application/vnd.syncml-devinf+xml" = false := by decide
+    have h2 : caseEq [] b!"application/vnd.syncml.dmtnds+xml" = false := by decide
+    simp only [h1, h2, Bool.false_eq_true, ↓reduceIte]
+  · rfl
+
+theorem normText_nil' (c : WCfg) : normText c [] = [] := by
+  unfold normText
+  split
+  · rfl
+  · have : (if c.removeBlanks = true then stripBlanks ([] : Bytes) else []) = [] := by split <;> rfl
+    rw [this]
+    exact syncmlTypeText_nil _
+
+/-- In every language, normalised NUL-free character data is empty or solid and a fixed point of
+    the media-type rewriting. -/
+theorem normText_solidS (c : WCfg) (s : Bytes) (hn : nulFree s = true) :
+    normText c s = [] ∨ SolidS c (normText c s) := by
+  unfold normText
+  split
+  · exact Or.inl rfl
+  · rename_i hskip
+    have hnf : nulFree (if c.removeBlanks = true then stripBlanks s else s) = true := by
+      split
+      · exact nulFree_strip s hn
+      · exact hn
+    rw [cstrOf_of_nulFree _ hnf]
+    by_cases he : (if c.removeBlanks = true then stripBlanks s else s) = []
+    · rw [he]; exact Or.inl (syncmlTypeText_nil _)
+    · have hsol : Solid c (if c.removeBlanks = true then stripBlanks s else s) := by
+        refine ⟨he, hnf, ?_, ?_⟩
+        · intro hr; simp only [hr, ↓reduceIte]; exact trim_strip s
+        · intro hi
+          have hsp : s.all isSpaceC = false := by
+            cases hsp : s.all isSpaceC with
+            | false => rfl
+            | true => rw [hi, hsp] at hskip; exact absurd rfl hskip
+          by_cases hr : c.removeBlanks = true
+          · simp only [hr, ↓reduceIte] at he ⊢
+            cases hh : (stripBlanks s).head? with
+            | none => rw [List.head?_eq_none_iff] at hh; exact absurd hh he
+            | some x => exact all_false_of_head _ x hh ((trim_strip s).1 x hh)
+          · simp only [hr, Bool.false_eq_true, ↓reduceIte]; exact hsp
+      exact Or.inr ⟨syncmlTypeText_solid c _ hsol, syncmlTypeText_idem _ _⟩
+
+def StableNS (c : WCfg) (k : Node) : Prop :=
+  match k with
+  | .text t => SolidS c t
+  | k => normNode c k = k
+
+def NOutS (c : WCfg) (k : Node) : Prop :=
+  match k with
+  | .text t => t = [] ∨ SolidS c t
+  | k => normNode c k = k
+
+structure StableS (c : WCfg) (K : List Node) : Prop where
+  nodes : ∀ k ∈ K, StableNS c k
+  adj : noAdj K = true
+
+theorem StableS.snoc {c : WCfg} {K : List Node} {k : Node} (h : StableS c K) (hk : StableNS c k)
+    (ha : (lastText K && isText k) = false) : StableS c (K ++ [k]) :=
+  ⟨fun x hx => by
+      rcases List.mem_append.mp hx with hx | hx
+      · exact h.nodes x hx
+      · simp only [List.mem_singleton] at hx; subst hx; exact hk,
+   by rw [noAdj_snoc, h.adj, ha]; rfl⟩
+
+/-- Appending a normalised child when nothing gets merged. -/
+theorem addN_stableS {c : WCfg} {acc : List Node} {n : Node} (h : StableS c acc) (hn : NOutS c n)
+    (hm : isText n = true → lastText acc = false) : StableS c (addN acc n) := by
+  cases n with
+  | text t =>
+    simp only [addN, addChars]
+    rcases hn with rfl | hs
+    · exact h
+    · have hne : t.isEmpty = false := by cases t with | nil => exact absurd rfl hs.sol.ne | cons _ _ => rfl
+      simp only [hne, Bool.false_eq_true, ↓reduceIte]
+      have hl := hm rfl
+      rw [addKid_text_after _ _ hl]
+      exact h.snoc hs (by rw [hl]; rfl)
+  | elt nm a ks =>
+    show StableS c (addKid acc (.elt nm a ks))
+    rw [addKid_not_text acc (.elt nm a ks) rfl]
+    exact h.snoc hn (by simp [isText])
+  | cdata ks =>
+    show StableS c (addKid acc (.cdata ks))
+    rw [addKid_not_text acc (.cdata ks) rfl]
+    exact h.snoc hn (by simp [isText])
+  | tree l cs r =>
+    show StableS c (addKid acc (.tree l cs r))
+    rw [addKid_not_text acc (.tree l cs r) rfl]
+    exact h.snoc hn (by simp [isText])
+
+theorem normKidsAcc_stableS (c : WCfg) : ∀ (K acc : List Node), StableS c K →
+    (lastText acc && headText K) = false → normKidsAcc c K acc = acc ++ K
+  | [], acc, _, _ => by rw [normKidsAcc_nil, List.append_nil]
+  | k :: K, acc, h, ha => by
+    rw [normKidsAcc_cons]
+    have hk : StableNS c k := h.nodes k (by simp)
+    have hadj := h.adj
+    rw [noAdj] at hadj
+    simp only [Bool.and_eq_true, Bool.not_eq_true'] at hadj
+    have hK : StableS c K := ⟨fun x hx => h.nodes x (List.mem_cons_of_mem _ hx), hadj.2⟩
+    have hstep : addN acc (normNode c k) = acc ++ [k] := by
+      cases k with
+      | text t =>
+        have hsol : SolidS c t := hk
+        rw [normNode_text, normText_of_solidS c t hsol]
+        have hne : t.isEmpty = false := by cases t with | nil => exact absurd rfl hsol.sol.ne | cons _ _ => rfl
+        simp only [addN, addChars, hne, Bool.false_eq_true, ↓reduceIte]
+        exact addKid_text_after _ _ (by simpa [headText, isText] using ha)
+      | elt nm a ks =>
+        have : normNode c (.elt nm a ks) = .elt nm a ks := hk
+        rw [this]; exact addKid_not_text acc (.elt nm a ks) rfl
+      | cdata ks => rw [normNode_cdata]; exact addKid_not_text acc (.cdata ks) rfl
+      | tree l cs r => rw [normNode_tree]; exact addKid_not_text acc (.tree l cs r) rfl
+    rw [hstep, normKidsAcc_stableS c K (acc ++ [k]) hK (by rw [lastText_snoc]; exact hadj.1), List.append_assoc]
+    rfl
+
+mutual
+/-- No two adjacent text siblings anywhere outside CDATA sections and embedded documents. -/
+def mergedNode : Node → Bool
+  | .elt _ _ kids => noAdj kids && mergedL kids
+  | .text _ => true
+  | .cdata _ => true
+  | .tree _ _ _ => true
+def mergedL : List Node → Bool
+  | [] => true
+  | k :: r => mergedNode k && mergedL r
+end
+
+theorem isText_normNode (c : WCfg) (n : Node) : isText (normNode c n) = isText n := by
+  cases n with
+  | elt nm a ks => rw [normNode_elt]; rfl
+  | text s => rw [normNode_text]; rfl
+  | cdata ks => rw [normNode_cdata]
+  | tree l cs r => rw [normNode_tree]
+
+theorem lastText_addN_nontext (acc : List Node) (n : Node) (h : isText n = false) : lastText (addN acc n) = false := by
+  cases n with
+  | text s => cases h
+  | elt nm a ks =>
+    show lastText (addKid acc (.elt nm a ks)) = false
+    rw [addKid_not_text acc (.elt nm a ks) rfl, lastText_snoc]; rfl
+  | cdata ks =>
+    show lastText (addKid acc (.cdata ks)) = false
+    rw [addKid_not_text acc (.cdata ks) rfl, lastText_snoc]; rfl
+  | tree l cs r =>
+    show lastText (addKid acc (.tree l cs r)) = false
+    rw [addKid_not_text acc (.tree l cs r) rfl, lastText_snoc]; rfl
+
+mutual
+theorem normNode_outS (c : WCfg) : ∀ (n : Node), textsNulFree n = true → mergedNode n = true → NOutS c (normNode c n)
+  | .elt name attrs kids, h, hm => by
+    rw [textsNulFree] at h
+    rw [mergedNode, Bool.and_eq_true] at hm
+    rw [normNode_elt]
+    show normNode c _ = _
+    have hK := normKids_outS c kids [] h hm.1 hm.2 ⟨fun _ hx => (by cases hx), rfl⟩ (fun hl => by cases hl)
+    rw [normNode_elt, normName_idem, normAttrs_idem, normKidsAcc_stableS c _ [] hK rfl, List.nil_append]
+  | .text s, h, _ => by
+    rw [textsNulFree] at h
+    rw [normNode_text]
+    exact normText_solidS c s h
+  | .cdata kids, _, _ => by rw [normNode_cdata]; exact normNode_cdata c kids
+  | .tree l cs r, _, _ => by rw [normNode_tree]; exact normNode_tree c l cs r
+theorem normKids_outS (c : WCfg) : ∀ (kids acc : List Node), textsNulFreeL kids = true → noAdj kids = true →
+    mergedL kids = true → StableS c acc → (lastText acc = true → headText kids = false) →
+    StableS c (normKidsAcc c kids acc)
+  | [], acc, _, _, _, ha, _ => by rw [normKidsAcc_nil]; exact ha
+  | k :: rest, acc, h, hadj, hm, ha, hinv => by
+    rw [textsNulFreeL, Bool.and_eq_true] at h
+    rw [mergedL, Bool.and_eq_true] at hm
+    rw [noAdj] at hadj
+    simp only [Bool.and_eq_true, Bool.not_eq_true'] at hadj
+    rw [normKidsAcc_cons]
+    have hno : isText (normNode c k) = true → lastText acc = false := by
+      intro ht
+      rw [isText_normNode] at ht
+      cases hl : lastText acc with
+      | false => rfl
+      | true => have := hinv hl; simp [headText, ht] at this
+    refine normKids_outS c rest _ h.2 hadj.2 hm.2 (addN_stableS ha (normNode_outS c k h.1 hm.1) hno) ?_
+    intro hl
+    cases hk : isText k with
+    | true => simpa [hk] using hadj.1
+    | false =>
+      rw [lastText_addN_nontext acc _ (by rw [isText_normNode]; exact hk)] at hl
+      cases hl
+end
+
+/-- **Idempotence of the normalisation in every language** (SyncML included) for trees with
+    NUL-free text and without adjacent text siblings. -/
+theorem normNode_idem_merged (c : WCfg) (n : Node) (h : textsNulFree n = true) (hm : mergedNode n = true) :
+    normNode c (normNode c n) = normNode c n := by
+  have ho := normNode_outS c n h hm
+  cases n with
+  | elt name attrs kids => rw [normNode_elt] at ho ⊢; exact ho
+  | text s =>
+    rw [normNode_text] at ho ⊢
+    rw [normNode_text]
+    rcases ho with h0 | hsol
+    · rw [h0, normText_nil' c]
+    · rw [normText_of_solidS c _ hsol]
+  | cdata kids => rw [normNode_cdata, normNode_cdata]
+  | tree l cs r => rw [normNode_tree, normNode_tree]
 
 /-! ### A Boolean comparison for examples -/
 
